@@ -130,14 +130,15 @@ func RequestAlphabet(thorough bool) Alphabet {
 	a := Alphabet{
 		Methods: []string{"POST", "GET", "PUT", "HEAD"},
 		Paths:   []string{"/", "/a", "/a/", "/b?x=1", "/a?q", "/A", "/b", "/ab"},
-		Peers:   []string{"1.2.3.4:5", "[::1]:5", "[2001:db8::1]:5"},
-		XFFs:    []string{"", "9.9.9.9"},
+		Peers:   []string{"1.2.3.4:5", "[::1]:5", "[2001:db8::1]:5", "[fe80::1%eth0]:5"},
+		// the header is whatever the redirector wrote: one address, or the hop list of a chain
+		XFFs: []string{"", "9.9.9.9", "203.0.113.7, 172.16.4.9"},
 		// garbage must stay immediately before junk (run.go infers junk's admission from it)
 		Bodies: []string{"checkin", "register", "garbage", "junk"},
 	}
 	if thorough {
 		a.Paths = append(a.Paths, "/a?")
-		a.Peers = append(a.Peers, "[fe80::1%eth0]:5")
+		a.XFFs = append(a.XFFs, "2001:db8::7", "fe80::7%eth1")
 	}
 	return a
 }
